@@ -895,9 +895,7 @@ func compareOutcome(r *eng.Run, who string, a, b *hsOutcome, what string, t *hsT
 
 func C16Handshake(r *eng.Run) {
 	c, s := drawHS(r)
-	if s.Kind == 1 {
-		s.Kind = 0 // request parsing of HTTPUpgrader is net/http's; cuts there test the stub
-	}
+	httpKind := s.Kind == 1 // request parsing of HTTPUpgrader is net/http's: only its response writes are failed
 	// Keep the enumerated streams short.
 	if len(c.Header) > 200 {
 		c.Header = "X-Custom: value\r\n"
@@ -915,7 +913,7 @@ func C16Handshake(r *eng.Run) {
 	r.Res.Nontrivial = true
 	// 1. The request is cut at every offset.
 	r.T.Mark()
-	for k := 0; k < len(t.Request); k++ {
+	for k := 0; k < len(t.Request) && !httpKind; k++ {
 		for kind := CutEOF; kind <= CutErr; kind++ {
 			r.T.Rewind()
 			r.Res.FaultPoints++
